@@ -42,7 +42,7 @@ func panicString(v value) string {
 			}
 			return x
 		case symstr:
-			return x.String()
+			return x.plain()
 		case *value:
 			// *errors.errorString and friends
 			if x != nil {
